@@ -1,2 +1,3 @@
+pub mod acceptnet;
 pub mod relaynet;
 pub mod relaynet_mc;
